@@ -112,6 +112,10 @@ def check(tier, seed, replay=None):
         if r.violated:
             raise ToolError("the specification itself violates %s (MC_Time)" % r.violated)
         chk.add_tlc(r, "MC_Time (Inverse, Successor, Weekdays, WeekCount, IsoWeeks, RoundTrip on every day of ten blocks of days between the years 1 and 9999)")
+        rd = tlc("MC_Time", "Dev_Time_century.cfg", workers=4, timeout=900)
+        if rd.violated != "Inverse":
+            raise ToolError("MC_Time with the era arithmetic lacking the century correction no longer yields the expected counterexample to Inverse")
+        chk.notes["dev_counterexamples"] = ["DevNoCenturyRule -> Inverse violated (expected)"]
         # (i) the documentation pins the specification
         docs = EL.doc_records(table)
         for i, r in enumerate(docs):
@@ -301,6 +305,10 @@ def check(tier, seed, replay=None):
             for inp_txt in ('{"n": 5, "a": 7, "l": [3, 4]}', "null", "[1, 2]"):
                 txt = "(parse_selection %s)" % json.dumps(inner)
                 items.append((X.strip(EP.parse(txt, table)), PL.parse_ast(inp_txt), [], [], txt))
+        # (x) env: the variables the harness process is started with (set, set to the empty string, non-ASCII, not set; names are case sensitive)
+        for nm in list(HARNESS_ENV) + HARNESS_ENV_ABSENT:
+            for txt in ('(env "%s")' % nm, '(default (env "%s") "unset")' % nm, '(size (env "%s"))' % nm, '(parse (env "%s"))' % nm, '(map ["%s"] (env .))' % nm):
+                items.append((X.strip(EP.parse(txt, table)), ("null",), [], [], txt))
     cases = []
     for i, (ast, inp, vs, ms, txt) in enumerate(items):
         c = EL.select_case(txt, inp, vs, ms)
